@@ -302,38 +302,76 @@ fn shared_fut<'a>(g: &'a FnGraph<Node>, cfg: &RunCfg, sh: &Sh, irx: &'a mut mpsc
     }
 }
 
+struct SideRes {
+    sig: u64,
+    choices: Vec<u16>,
+    text: String,
+}
+
 struct PairRes {
-    a: RunRes,
-    b: RunRes,
+    a: SideRes,
+    b: SideRes,
     global: Vec<Taken>,
     switches: usize,
     overlapped: bool,
 }
 
-fn to_runres(d: DriveRes, sh: &Sh) -> RunRes {
-    let mut s = sh.borrow_mut();
-    RunRes { status: d.status, out: d.out, ev: std::mem::take(&mut s.ev), taken: std::mem::take(&mut s.local), polls: d.polls, states: d.states, diverged: false }
+enum AnyDriver<'a, 'f> {
+    S(Driver<'a, BoxFut<'f>>),
+    C(crate::engine_c::CDriver<'f>),
+}
+
+enum AnyEnd {
+    S(DriveRes),
+    C(Status, Option<crate::engine_c::CEnd>),
+}
+
+impl AnyDriver<'_, '_> {
+    fn step(&mut self) -> Option<AnyEnd> {
+        match self {
+            AnyDriver::S(d) => d.step().map(AnyEnd::S),
+            AnyDriver::C(d) => d.step().map(|(s, e)| AnyEnd::C(s, e)),
+        }
+    }
 }
 
 /// Runs A and B on one `&FnGraph`, all decisions (which run acts next, and each run's own
 /// environment answers) drawn from one choice list.
-fn run_pair(g: &FnGraph<Node>, ca: &RunCfg, cb: &RunCfg, prefix: Vec<u16>, switch_bound: usize) -> Result<PairRes, String> {
+fn run_pair(g: &FnGraph<Node>, ca: &AnyCfg, cb: &AnyCfg, prefix: Vec<u16>, switch_bound: usize) -> Result<PairRes, String> {
     let n = g.graph.node_count();
     let ch: ChooserRef = Chooser::shared(prefix);
-    let mk_sh = |c: &RunCfg| {
-        let mut fail = c.fail.clone();
+    let mk_sh = |c: &AnyCfg| {
+        let (mut fail, imm) = match c {
+            AnyCfg::S(c) => (c.fail.clone(), c.imm_choice),
+            AnyCfg::C(_) => (vec![], false),
+        };
         fail.resize(n, false);
-        Shared::new(n, fail, ch.clone(), c.imm_choice, false)
+        Shared::new(n, fail, ch.clone(), imm, false)
     };
     let (sha, shb) = (mk_sh(ca), mk_sh(cb));
+    // one interrupt channel per side and per engine kind (only one of each pair is used)
     let (itxa, mut irxa) = mpsc::channel::<InterruptSignal>(4);
     let (itxb, mut irxb) = mpsc::channel::<InterruptSignal>(4);
+    let (itxa2, mut irxa2) = mpsc::channel::<InterruptSignal>(4);
+    let (itxb2, mut irxb2) = mpsc::channel::<InterruptSignal>(4);
     let r = catch_quiet(|| {
-        let mut fa = shared_fut(g, ca, &sha, &mut irxa);
-        let mut fb = shared_fut(g, cb, &shb, &mut irxb);
-        let mut da = Driver::new(Pin::new(&mut fa), &sha, ca, if ca.strat == Strat::Non { None } else { Some(&itxa) });
-        let mut db = Driver::new(Pin::new(&mut fb), &shb, cb, if cb.strat == Strat::Non { None } else { Some(&itxb) });
-        let (mut ra, mut rb): (Option<DriveRes>, Option<DriveRes>) = (None, None);
+        let mut fa: Option<BoxFut<'_>> = match ca {
+            AnyCfg::S(c) => Some(shared_fut(g, c, &sha, &mut irxa)),
+            AnyCfg::C(_) => None,
+        };
+        let mut fb: Option<BoxFut<'_>> = match cb {
+            AnyCfg::S(c) => Some(shared_fut(g, c, &shb, &mut irxb)),
+            AnyCfg::C(_) => None,
+        };
+        let mut da = match ca {
+            AnyCfg::S(c) => AnyDriver::S(Driver::new(Pin::new(fa.as_mut().unwrap()), &sha, c, if c.strat == Strat::Non { None } else { Some(&itxa) })),
+            AnyCfg::C(c) => AnyDriver::C(crate::engine_c::CDriver::new(g, c, &mut irxa2, itxa2.clone(), ch.clone())),
+        };
+        let mut db = match cb {
+            AnyCfg::S(c) => AnyDriver::S(Driver::new(Pin::new(fb.as_mut().unwrap()), &shb, c, if c.strat == Strat::Non { None } else { Some(&itxb) })),
+            AnyCfg::C(c) => AnyDriver::C(crate::engine_c::CDriver::new(g, c, &mut irxb2, itxb2.clone(), ch.clone())),
+        };
+        let (mut ra, mut rb): (Option<AnyEnd>, Option<AnyEnd>) = (None, None);
         let mut cur = 0usize;
         let mut switches = 0usize;
         let mut overlapped = false;
@@ -360,9 +398,10 @@ fn run_pair(g: &FnGraph<Node>, ca: &RunCfg, cb: &RunCfg, prefix: Vec<u16>, switc
             stepped[cur] = true;
             // a panic inside one run is that run's result (and must happen alone as well)
             let r = if cur == 0 { catch_quiet(|| da.step()) } else { catch_quiet(|| db.step()) };
+            let is_s = matches!(if cur == 0 { &da } else { &db }, AnyDriver::S(_));
             let r = match r {
                 Ok(r) => r,
-                Err(m) => Some(DriveRes { status: Status::Panic(m), out: None, polls: 0, states: vec![] }),
+                Err(m) => Some(if is_s { AnyEnd::S(DriveRes { status: Status::Panic(m), out: None, polls: 0, states: vec![] }) } else { AnyEnd::C(Status::Panic(m), None) }),
             };
             if cur == 0 {
                 ra = r;
@@ -370,12 +409,26 @@ fn run_pair(g: &FnGraph<Node>, ca: &RunCfg, cb: &RunCfg, prefix: Vec<u16>, switc
                 rb = r;
             }
         }
-        (ra.unwrap(), rb.unwrap(), switches, overlapped)
+        let finish = |end: AnyEnd, d: &mut AnyDriver<'_, '_>, sh: &Sh| -> SideRes {
+            match (end, d) {
+                (AnyEnd::S(dr), _) => {
+                    let r = to_runres(dr, sh);
+                    SideRes { sig: sig_s(&r), choices: r.taken.iter().map(|t| t.c).collect(), text: format!("{:?} -> {:?} {:?}", r.ev, r.status, r.out) }
+                }
+                (AnyEnd::C(status, end), AnyDriver::C(cd)) => {
+                    let (ev, taken, polls, states) = cd.take_logs();
+                    let r = CRes { status, end, ev, taken, polls, states, diverged: false };
+                    SideRes { sig: sig_c(&r), choices: r.taken.iter().map(|t| t.c).collect(), text: format!("{:?} -> {:?} {:?}", r.ev, r.status, r.end) }
+                }
+                _ => unreachable!(),
+            }
+        };
+        let a = finish(ra.unwrap(), &mut da, &sha);
+        let b = finish(rb.unwrap(), &mut db, &shb);
+        (a, b, switches, overlapped)
     });
     match r {
-        Ok((ra, rb, switches, overlapped)) => {
-            let a = to_runres(ra, &sha);
-            let b = to_runres(rb, &shb);
+        Ok((a, b, switches, overlapped)) => {
             let global = ch.borrow().taken.clone();
             if ch.borrow().diverged {
                 return Err("replay divergence in pair run".into());
@@ -386,7 +439,18 @@ fn run_pair(g: &FnGraph<Node>, ca: &RunCfg, cb: &RunCfg, prefix: Vec<u16>, switc
     }
 }
 
-fn c20_cfgs(n: usize) -> Vec<RunCfg> {
+fn to_runres(d: DriveRes, sh: &Sh) -> RunRes {
+    let mut s = sh.borrow_mut();
+    RunRes { status: d.status, out: d.out, ev: std::mem::take(&mut s.ev), taken: std::mem::take(&mut s.local), polls: d.polls, states: d.states, diverged: false }
+}
+
+fn solo(spec: &Spec, cfg: &AnyCfg, choices: Vec<u16>) -> SideRes {
+    let mut gf = build(spec);
+    let r = run_any(&mut gf, cfg, choices);
+    SideRes { sig: r.sig, choices: r.taken.iter().map(|t| t.c).collect(), text: r.text }
+}
+
+fn c20_cfgs(n: usize) -> Vec<AnyCfg> {
     let mut v = vec![];
     for kind in [Kind::ForEach, Kind::TryForEach, Kind::Control, Kind::Fold, Kind::TryFold] {
         let mut c = RunCfg::plain(Api { kind, mutable: false, with: true }, n);
@@ -400,17 +464,22 @@ fn c20_cfgs(n: usize) -> Vec<RunCfg> {
             c.strat = Strat::Finish;
             c.interrupt = true;
         }
-        v.push(c);
+        v.push(AnyCfg::S(c));
     }
     let mut c = RunCfg::plain(Api { kind: Kind::ForEach, mutable: false, with: true }, n);
     c.limit = Some(1);
     c.rev = true;
-    v.push(c);
+    v.push(AnyCfg::S(c));
+    v.push(AnyCfg::C(CCfg::plain(SApi::Stream)));
+    let mut s = CCfg::plain(SApi::StreamWithInterruptible);
+    s.rev = true;
+    s.strat = Strat::Finish;
+    s.interrupt = true;
+    v.push(AnyCfg::C(s));
     v
 }
 
 pub fn run_c20(tier: &str, deadline: Instant, total: &mut Stats, log: &mut Vec<Value>) {
-    // (n, switch bound)
     // (n, switch bound, bound on non-default answers in the whole choice list incl. switches)
     let plans: Vec<(usize, usize, Option<usize>)> = if tier == "thorough" {
         vec![(0, 64, None), (1, 64, None), (2, 4, None), (3, 3, Some(4)), (4, 2, Some(3))]
@@ -444,6 +513,7 @@ pub fn run_c20(tier: &str, deadline: Instant, total: &mut Stats, log: &mut Vec<V
                 let mut nontrivial = std::collections::HashSet::new();
                 let mut stack: Vec<Vec<u16>> = vec![vec![]];
                 let mut cnt = 0u64;
+                let detail = |which: &str| json!({"a": ca.json(), "b": cb.json(), "switch_bound": sb, "which": which});
                 while let Some(p) = stack.pop() {
                     cnt += 1;
                     if cnt % 256 == 0 && Instant::now() > deadline {
@@ -457,9 +527,9 @@ pub fn run_c20(tier: &str, deadline: Instant, total: &mut Stats, log: &mut Vec<V
                         Err(m) => {
                             local.add_viol(ViolRec {
                                 prop: 20,
-                                msg: format!("two simultaneous runs: panic / divergence: {m}"),
+                                msg: format!("two simultaneous runs: panic / divergence outside a step: {m}"),
                                 spec: spec.clone(),
-                                cfg: JobCfg::H(format!("simultaneous A=[{}] B=[{}]", ca.short(), cb.short()), json!({"a": ca, "b": cb, "switch_bound": sb})),
+                                cfg: JobCfg::H(format!("simultaneous A=[{}] B=[{}]", ca.short(), cb.short()), detail("-")),
                                 choices: p.clone(),
                                 trace: vec![],
                                 result: String::new(),
@@ -483,7 +553,7 @@ pub fn run_c20(tier: &str, deadline: Instant, total: &mut Stats, log: &mut Vec<V
                             }
                         }
                     }
-                    let sig = hash64(&(sig_s(&pr.a), sig_s(&pr.b)));
+                    let sig = hash64(&(pr.a.sig, pr.b.sig));
                     sigs.insert(sig);
                     if pr.overlapped {
                         nontrivial.insert(sig);
@@ -492,23 +562,22 @@ pub fn run_c20(tier: &str, deadline: Instant, total: &mut Stats, log: &mut Vec<V
                     local.max_deviations = local.max_deviations.max(pr.switches as u64);
                     // differential oracle: each projection replayed alone on a fresh graph
                     for (name, cfg, r) in [("A", ca, &pr.a), ("B", cb, &pr.b)] {
-                        let mut gf = build(spec);
-                        let solo = run_on(&mut gf, cfg, r.taken.iter().map(|t| t.c).collect());
+                        let alone = solo(spec, cfg, r.choices.clone());
                         local.recheck += 1;
-                        if sig_s(&solo) != sig_s(r) {
+                        if alone.sig != r.sig {
                             local.add_viol(ViolRec {
                                 prop: 20,
                                 msg: format!("run {name} behaves differently next to another run than alone under the same environment answers"),
                                 spec: spec.clone(),
-                                cfg: JobCfg::H(format!("simultaneous A=[{}] B=[{}]", ca.short(), cb.short()), json!({"a": ca, "b": cb, "switch_bound": sb, "which": name})),
+                                cfg: JobCfg::H(format!("simultaneous A=[{}] B=[{}]", ca.short(), cb.short()), detail(name)),
                                 choices: key.clone(),
-                                trace: r.ev.clone(),
-                                result: format!("together: {:?} {:?} {:?} | alone: {:?} {:?} {:?}", r.ev, r.status, r.out, solo.ev, solo.status, solo.out),
+                                trace: vec![],
+                                result: format!("together: {} | alone: {}", r.text, alone.text),
                             });
                         }
                     }
                     if local.samples.len() < 2 && pr.overlapped && pr.switches >= 2 {
-                        local.samples.push(json!({"graph": spec.short(), "run_a": ca.short(), "run_b": cb.short(), "choices": key, "trace_a": format!("{:?}", pr.a.ev), "trace_b": format!("{:?}", pr.b.ev)}));
+                        local.samples.push(json!({"graph": spec.short(), "run_a": ca.short(), "run_b": cb.short(), "choices": key, "trace_a": pr.a.text, "trace_b": pr.b.text}));
                     }
                 }
                 local.states += sigs.len() as u64;
@@ -518,7 +587,7 @@ pub fn run_c20(tier: &str, deadline: Instant, total: &mut Stats, log: &mut Vec<V
             |l| st.merge(l),
         );
         st.capped |= capped;
-        let label = format!("n={n}: {} shapes x {} unordered pairs of &self runs, <= {sb} switches between the runs, {}", specs.len(), cfgs.len() * (cfgs.len() + 1) / 2, match devb { None => "every environment answer of both".to_string(), Some(d) => format!("<= {d} non-default answers (switches included)") });
+        let label = format!("n={n}: {} shapes x {} unordered pairs of &self runs (6 future configurations, 2 streams), <= {sb} switches between the runs, {}", specs.len(), cfgs.len() * (cfgs.len() + 1) / 2, match devb { None => "every environment answer of both".to_string(), Some(d) => format!("<= {d} non-default answers (switches included)") });
         log.push(json!({"space": label, "interleavings": st.execs, "completed": !st.capped, "wall_s": t0.elapsed().as_secs_f64()}));
         eprintln!("  [{label}] interleavings={} viol={} {}{:.1}s", st.execs, st.viol_total, if st.capped { "CAPPED " } else { "" }, t0.elapsed().as_secs_f64());
         total.merge(st);
@@ -570,7 +639,7 @@ pub fn replay_h(prop: u8, spec: &Spec, detail: &Value, choices: &[u16]) -> i32 {
             }
         }
         20 => {
-            let (Ok(ca), Ok(cb)) = (serde_json::from_value::<RunCfg>(detail["a"].clone()), serde_json::from_value::<RunCfg>(detail["b"].clone())) else {
+            let (Some(ca), Some(cb)) = (any_from_json(&detail["a"]), any_from_json(&detail["b"])) else {
                 eprintln!("malformed C20 record");
                 return 2;
             };
@@ -584,11 +653,10 @@ pub fn replay_h(prop: u8, spec: &Spec, detail: &Value, choices: &[u16]) -> i32 {
                 Ok(pr) => {
                     let mut bad = false;
                     for (name, cfg, r) in [("A", &ca, &pr.a), ("B", &cb, &pr.b)] {
-                        let mut gf = build(spec);
-                        let solo = run_on(&mut gf, cfg, r.taken.iter().map(|t| t.c).collect());
-                        println!("run {name} next to the other run: {:?} -> {:?} {:?}", r.ev, r.status, r.out);
-                        println!("run {name} alone, same answers   : {:?} -> {:?} {:?}", solo.ev, solo.status, solo.out);
-                        if sig_s(&solo) != sig_s(r) {
+                        let alone = solo(spec, cfg, r.choices.clone());
+                        println!("run {name} next to the other run: {}", r.text);
+                        println!("run {name} alone, same answers   : {}", alone.text);
+                        if alone.sig != r.sig {
                             bad = true;
                         }
                     }
